@@ -173,13 +173,15 @@ func (f *fileWrapper) Move(newPath string) error {
 		}
 	}
 
+	// A partial upload is addressed by its final name and has no data file yet: its .incomplete file and forks move.
 	err := f.fs.Rename(f.dataPath, filepath.Join(newPath, f.Name))
-	if err != nil {
+	noData := errors.Is(err, os.ErrNotExist)
+	if err != nil && !noData {
 		return err
 	}
 
 	err = f.fs.Rename(f.incompletePath, filepath.Join(newPath, f.incompleteDataName()))
-	if err != nil && !errors.Is(err, os.ErrNotExist) {
+	if err != nil && (!errors.Is(err, os.ErrNotExist) || noData) {
 		return err
 	}
 
